@@ -108,6 +108,8 @@ class HistoryRunner:
         self.disk.materialize(case["project"])
         self.variants = collections.Counter()
         self.changed_since_cmd = False
+        self.user_kind = {}
+        self.role_changes = collections.Counter()
         self.pending_changes = set()   # kinds of changes since the last successful command
         self.env = {}
         if not case["cfg"].get("log", 1):
@@ -115,6 +117,17 @@ class HistoryRunner:
         if case["cfg"].get("keep_going"):
             self.env["REDO_KEEP_GOING"] = "1"
         self.step = 0
+        self.ustat = {}
+        for pth, f in self.m.fs.items():
+            if f.owner == "user":
+                self.note_user(pth)
+
+    def note_user(self, p):
+        try:
+            st = os.lstat(self.disk.abspath(p))
+            self.ustat[p] = (st.st_ino, st.st_mtime_ns, st.st_size)
+        except FileNotFoundError:
+            self.ustat.pop(p, None)
 
     def close(self):
         shutil.rmtree(self.disk.base, ignore_errors=True)
@@ -206,13 +219,23 @@ class HistoryRunner:
             self.manual(op[1], "remove")
         else:
             raise ValueError(op)
+        if k not in ("cmd", "query"):
+            for pth in list(op[1:2]):
+                if isinstance(pth, str):
+                    if pth in m.fs and m.fs[pth].owner == "user":
+                        self.note_user(pth)
+                    else:
+                        self.ustat.pop(pth, None)
 
     def manual(self, p, how):
         m, disk = self.m, self.disk
         if how == "remove":
             if p in m.fs:
+                if m.fs[p].owner == "user":
+                    self.role_changes[p] += 1
                 disk.remove(p)
                 m.user_remove(p)
+                self.ustat.pop(p, None)
                 self.pending_changes.add("mremove")
             return
         self.variants[p] += 1
@@ -221,6 +244,10 @@ class HistoryRunner:
         was_redo = existed and m.fs[p].owner == "redo"
         disk.write(p, data, fresh_inode=(how == "replace"))
         m.user_write(p, data)
+        self.note_user(p)
+        self.user_kind[p] = ("replaced" if how == "replace" else "edited") + ("-after-generated" if was_redo else "")
+        if was_redo or not existed:
+            self.role_changes[p] += 1
         self.pending_changes.add("m" + how + ("-gen" if was_redo else ("-user" if existed else "-new")))
 
     # -- commands --
@@ -317,6 +344,37 @@ class HistoryRunner:
                     self.violate("C01", "ood-lists-built", dict(ctx, ood=sorted(listed), rc=q.rc,
                                                                  err=q.err.decode("utf-8", "replace")[-500:]),
                                  {"symptom": "ood-after-success"})
+        # ---------- C11: files redo did not produce are untouched (bytes, inode, mtime) ----------
+        if "userfiles" in ch:
+            bad = []
+            for p, f in m.fs.items():
+                if f.owner != "user":
+                    continue
+                got = disk.read(p)
+                try:
+                    st = os.lstat(disk.abspath(p))
+                    cur = (st.st_ino, st.st_mtime_ns, st.st_size)
+                except FileNotFoundError:
+                    cur = None
+                if got != f.data or (p in self.ustat and cur != self.ustat[p]):
+                    bad.append({"path": p, "got": _short(got), "want": _short(f.data), "stat": cur,
+                                "stat_before": self.ustat.get(p)})
+            if bad:
+                self.violate("C11", "user-file-changed", dict(ctx, bad=bad), {"symptom": "user-file-changed"})
+            text = res.text()
+            for p in m.warned:
+                ev["c11:override-warning-expected"] += 1
+                if "you modified it" not in text or posixpath.basename(p) not in text:
+                    self.violate("C11", "no-override-warning", dict(ctx, path=p), {"symptom": "no-warning"})
+            for t in targets:
+                f = m.fs.get(t)
+                if f is not None and f.owner == "user":
+                    self.out.nontrivial = True
+                    ev["c11:build-requested-on-user-owned:" + self.user_kind.get(t, "never-generated")] += 1
+                    if posixpath.dirname(m.rule_for(t)[0]) != posixpath.dirname(t) if m.rule_for(t) else False:
+                        ev["c11:default-rule-in-parent-dir"] += 1
+                    if self.role_changes[t] >= 2:
+                        ev["c11:role-changed>=2"] += 1
         # ---------- model file system must equal disk for all model-known paths (both directions) ----------
         if "fs" in ch:
             bad = []
@@ -458,7 +516,69 @@ class HistoryRunner:
             ev["diverged:exec-set"] += 1
 
     def do_query(self, which, cwd):
-        pass
+        m, disk = self.m, self.disk
+        if not os.path.isdir(os.path.join(disk.root, ".redo")):
+            return
+        q = runner.run_cmd(disk, ["redo-" + which], cwd=cwd, env_extra=self.env)
+        self.out.commands += 1
+        lines = [l for l in q.out.decode("utf-8", "replace").split("\n") if l]
+        listed = set(posixpath.normpath(posixpath.join(cwd, l)) for l in lines)
+        ctx = {"cmd": q.brief(), "query": which, "cwd": cwd, "listed": sorted(listed)}
+        self.out.log.append({"query": which, "cwd": cwd})
+        if "query" not in self.checks:
+            return
+        ev = self.out.events
+        if q.rc != 0:
+            if "database is locked" in q.text():
+                self.violate("C16", "db-busy", ctx, {"symptom": "sqlite busy"})
+            self.violate("C17", "query-failed", ctx, {"symptom": "query exit %d" % q.rc})
+        if len(lines) != len(set(lines)):
+            self.violate("C17", "duplicate-lines", ctx, {"symptom": "duplicates"})
+        known = {p: r for p, r in m.rec.items() if not p.startswith("//")}
+
+        def untouched(p, r):
+            return r.gen and not r.override and m.stamp(p) == r.out_ver
+        want_t = set(p for p, r in known.items() if r.gen and (untouched(p, r) or p not in m.fs))
+        want_s = set(p for p, r in known.items() if p in m.fs and not untouched(p, r))
+        if which == "targets":
+            if listed != want_t:
+                self.violate("C17", "targets-listing", dict(ctx, want=sorted(want_t)),
+                             {"symptom": "targets", "extra": bool(listed - want_t), "missing": bool(want_t - listed)})
+            ev["c17:targets-query"] += 1
+        elif which == "sources":
+            # redo also knows .do candidates and paths outside our model (e.g. ../default.do above the root);
+            # compare on the model-known paths and require everything else to exist and not be a target
+            extra = listed - want_s
+            bad_extra = [p for p in extra if p in want_t or disk.read(p) is None and not os.path.isdir(disk.abspath(p))]
+            if (want_s - listed) or bad_extra:
+                self.violate("C17", "sources-listing", dict(ctx, want=sorted(want_s), bad_extra=bad_extra),
+                             {"symptom": "sources", "missing": bool(want_s - listed), "extra": bool(bad_extra)})
+            ev["c17:sources-query"] += 1
+        else:
+            cand = sorted(want_t)
+            lower = set(t for t in cand if m.would_run(t))
+            upper = set(t for t in cand if m.would_run_upper(t))
+            nested = has_nested_csum(m)
+            if not (lower <= listed):
+                self.violate("C17", "ood-misses-target", dict(ctx, lower=sorted(lower), upper=sorted(upper),
+                                                               missing=sorted(lower - listed)),
+                             {"symptom": "ood-missing"})
+            if not (listed <= upper):
+                self.violate("C17", "ood-lists-clean-target", dict(ctx, lower=sorted(lower), upper=sorted(upper),
+                                                                    extra=sorted(listed - upper)),
+                             {"symptom": "ood-extra", "nested_csum": bool(nested)})
+            ev["c17:ood-query"] += 1
+            if lower and (lower != upper or lower != set(cand)):
+                self.out.nontrivial = True
+                ev["c17:ood-nontrivial"] += 1
+            if lower != upper:
+                ev["c17:suspect-checksummed-present"] += 1
+            if any(r.failed for r in known.values()):
+                ev["c17:after-failure"] += 1
+            if any(r.override for r in known.values()):
+                ev["c17:after-override"] += 1
+            if any(r.gen and p not in m.fs for p, r in known.items()):
+                ev["c17:after-target-deletion"] += 1
 
 
 def _short(b):
